@@ -38,15 +38,25 @@ type Coll struct {
 	fillerKeys int      // keys handed to filler rows of a keyed collection
 	writes     int64    // number of writes issued so far (selects the writer flavor)
 	creates    int64    // number of plain columns created so far (selects CreateColumn / CreateColumnsOf)
+	oneshots   int64    // number of hidden one-shot triggers registered so far
+	hidden     []*oneShot
 
 	fmu      sync.Mutex
 	fired    map[string][]Ev // trigger calls since the last apply event
 	replayed map[string]int  // per source collection: how many of its commits were replayed here
 }
 
+// oneShot is a hidden trigger that drops itself from inside a commit once two recorded triggers of its column stand behind it.
+type oneShot struct {
+	col   string
+	after map[string]bool // recorded triggers of the column created after it and still there
+	done  bool
+}
+
 // World is one scenario's universe: collections, tracer, bookkeeping of addressed offsets.
 type World struct {
 	T       *Tracer
+	OneShot bool // CreateTrigger registers a hidden self-dropping trigger before each recorded one
 	Colls   map[string]*Coll
 	tmu     sync.Mutex
 	tracked map[uint32]bool // offsets the harness has addressed individually
@@ -291,6 +301,35 @@ func (c *Coll) CreateSort(name, col string) error {
 
 func (c *Coll) CreateTrigger(name, col string) error {
 	d, _ := c.Desc(col)
+	if c.W.OneShot {
+		// a one-shot trigger registered just before the recorded one: it drops itself from inside its first call, that is
+		// while a commit walks the computed columns of this column. The specification does not know it (no event, no
+		// fired list): the recorded triggers behind it must get every committed change exactly once all the same, since
+		// the commit in flight walks the list it loaded.
+		hn := fmt.Sprintf("zz1-%s-%d", name, atomic.AddInt64(&c.oneshots, 1))
+		h := &oneShot{col: col, after: map[string]bool{}}
+		if err := c.C.CreateTrigger(hn, col, func(column.Reader) {
+			c.fmu.Lock()
+			fire := !h.done && len(h.after) >= 2 // at least two recorded triggers behind it: dropping it shifts them
+			h.done = h.done || fire
+			c.fmu.Unlock()
+			if fire {
+				c.C.DropTrigger(hn)
+			}
+		}); err != nil {
+			return err
+		}
+		c.fmu.Lock()
+		c.hidden = append(c.hidden, h)
+		c.fmu.Unlock()
+	}
+	c.fmu.Lock()
+	for _, h := range c.hidden {
+		if h.col == col && !h.done {
+			h.after[name] = true
+		}
+	}
+	c.fmu.Unlock()
 	err := c.C.CreateTrigger(name, col, func(r column.Reader) {
 		e := Ev{"o": int(r.Index())}
 		if r.IsDelete() {
@@ -320,6 +359,11 @@ func (c *Coll) DropTrigger(name string) error {
 			break
 		}
 	}
+	c.fmu.Lock()
+	for _, h := range c.hidden {
+		delete(h.after, name)
+	}
+	c.fmu.Unlock()
 	c.W.T.Log(Ev{"e": "droptrig", "c": c.Name, "n": name})
 	return nil
 }
